@@ -405,7 +405,7 @@ Lemma served_once_state init st sel :
 Proof.
   intros [K Cov Sup Sub] Hlam Hod Hanti i j a c s Hi Hj Ha Hc Hsa Hsc.
   destruct (N.eq_dec i j) as [E|E]; [exact E|exfalso].
-  unfold antichain_ok in Hanti. rewrite forallb_forall in Hanti.
+  unfold antichain_ok in Hanti. apply andb_true_iff in Hanti as [_ Hanti]. rewrite forallb_forall in Hanti.
   pose proof (Hanti i Hi) as H1. rewrite forallb_forall in H1. specialize (H1 j Hj).
   pose proof (Hanti j Hj) as H2. rewrite forallb_forall in H2. specialize (H2 i Hi).
   rewrite Ha, Hc in H1. rewrite Ha, Hc in H2.
@@ -468,4 +468,116 @@ Proof.
     { apply blocks_nodup_prefix; [|exact Hl]. intros j b Hin. unfold init_state in Hin.
       apply in_map_iff in Hin as [[o ss] [E Hin]]. inversion E; subst. simpl. eapply Hss; eauto. }
     eapply Hb; eauto.
+Qed.
+
+(* ---- exactly once, on the case: corr_ok /\ cover_all /\ disjoint inputs -> once_ok ---- *)
+Lemma nodup_complete {A} (eqb : A -> A -> bool) (Heq : forall a b, eqb a b = true <-> a = b) l :
+  NoDup l -> nodup eqb l = true.
+Proof.
+  induction 1 as [|x r Hni Hnd IH]; simpl; [reflexivity|]. rewrite IH, andb_true_r.
+  apply negb_true_iff. destruct (mem eqb x r) eqn:E; [|reflexivity].
+  apply (mem_In eqb Heq) in E. contradiction.
+Qed.
+
+Lemma NoDup_concat_map {A} (f : N -> list A) (l : list N) :
+  NoDup l -> (forall x, In x l -> NoDup (f x)) ->
+  (forall x y a, In x l -> In y l -> In a (f x) -> In a (f y) -> x = y) ->
+  NoDup (List.concat (map f l)).
+Proof.
+  induction 1 as [|x r Hni Hnd IH]; intros H1 H2; simpl; [constructor|].
+  apply NoDup_app_local.
+  - apply H1. left; reflexivity.
+  - apply IH; [intros y Hy; apply H1; right; exact Hy|].
+    intros y z a Hy Hz. apply H2; right; assumption.
+  - intros a Ha Hc. apply in_concat in Hc as [m [Hm Ham]]. apply in_map_iff in Hm as [y [Ey Hy]]. subst m.
+    assert (x = y) by (apply (H2 x y a); [left; reflexivity|right; exact Hy|exact Ha|exact Ham]).
+    subst. contradiction.
+Qed.
+
+Lemma orig_disjoint_b_spec init : NoDup (map fst init) -> orig_disjoint_b init = true -> orig_disjoint init.
+Proof.
+  induction init as [|[k v] r IH]; intros Hnd Hb o ss o' ss' s H1 H2 S1 S2; simpl in *; [contradiction|].
+  inversion Hnd as [|? ? Hni Hnd']; subst. apply andb_true_iff in Hb as [Hd Hb].
+  rewrite forallb_forall in Hd.
+  assert (Hx : forall p t, In p r -> In t v -> In t (snd p) -> False).
+  { intros p t Hp Hv Hs. specialize (Hd p Hp). unfold disjoint in Hd. rewrite forallb_forall in Hd.
+    specialize (Hd t Hv). apply negb_true_iff in Hd. apply memS_In in Hs. unfold memS in Hs. congruence. }
+  destruct H1 as [H1|H1], H2 as [H2|H2].
+  - congruence.
+  - inversion H1; subst. exfalso. apply (Hx (o', ss') s H2 S1 S2).
+  - inversion H2; subst. exfalso. apply (Hx (o, ss) s H1 S2 S1).
+  - eapply IH; eauto.
+Qed.
+
+Lemma served_list_NoDup init st sel :
+  inv init st -> laminar st -> blocks_nodup st -> orig_disjoint init -> antichain_ok st sel = true ->
+  (forall id, In id sel -> find st id <> None) ->
+  NoDup (served_list st sel).
+Proof.
+  intros Hi Hlam Hbn Hod Hanti Hfound. unfold served_list.
+  apply NoDup_concat_map.
+  - unfold antichain_ok in Hanti. apply andb_true_iff in Hanti as [Hn _]. apply nodupN_NoDup. exact Hn.
+  - intros id Hid. destruct (find st id) as [b|] eqn:Hf; [|constructor]. eapply Hbn. apply find_In. exact Hf.
+  - intros i j s Hx Hy Sa Sc.
+    destruct (find st i) as [a|] eqn:Ha; [|contradiction]. destruct (find st j) as [c|] eqn:Hc; [|contradiction].
+    eapply (served_once_state init st sel); eauto.
+Qed.
+
+Lemma cover_found st hide sel :
+  NoDup (map fst st) -> cover_ok st hide sel = true -> forall id, In id sel -> find st id <> None.
+Proof.
+  intros K Hc id Hid. unfold cover_ok in Hc. apply andb_true_iff in Hc as [Hc _].
+  rewrite forallb_forall in Hc. specialize (Hc id Hid). apply memN_In in Hc.
+  apply in_map_iff in Hc as [[i b] [Ei Hin]]. simpl in Ei. subst i.
+  unfold eligible in Hin. apply filter_In in Hin as [Hin _].
+  rewrite (In_find st id b K Hin). discriminate.
+Qed.
+
+Lemma last_view_props init : forall steps st s0 s1,
+  inv init st -> laminar st -> blocks_nodup st ->
+  legal st (map (fun s => fst (fst s)) steps) = true ->
+  cover_ok st true s0 = true -> cover_ok st false s1 = true ->
+  antichain_ok st s0 = true -> antichain_ok st s1 = true ->
+  cover_steps st steps = true ->
+  match last_view st s0 s1 steps with
+  | (st', f0, f1) =>
+      inv init st' /\ laminar st' /\ blocks_nodup st'
+      /\ cover_ok st' true f0 = true /\ cover_ok st' false f1 = true
+      /\ antichain_ok st' f0 = true /\ antichain_ok st' f1 = true
+  end.
+Proof.
+  induction steps as [|[[o a] b] r IH]; intros st s0 s1 Hi Hl Hb Hlg C0 C1 A0 A1 Hcs; simpl in *.
+  - repeat (split; [assumption|]); assumption.
+  - apply andb_true_iff in Hlg as [Hok Hlg].
+    apply andb_true_iff in Hcs as [Hcs Hr]. apply andb_true_iff in Hcs as [Hcs A1'].
+    apply andb_true_iff in Hcs as [Hcs A0']. apply andb_true_iff in Hcs as [C0' C1'].
+    apply IH; try assumption.
+    + apply inv_step; assumption.
+    + apply laminar_step; assumption.
+    + apply blocks_nodup_step; assumption.
+Qed.
+
+Lemma once_case c :
+  corr_ok c = true -> cover_all c = true ->
+  match c with CHist _ init _ _ _ _ => orig_disjoint_b init = true end ->
+  once_ok c = true.
+Proof.
+  destruct c as [v init s0 s1 steps q]. simpl. intros Hc Hcov Hdis.
+  destruct q; [|reflexivity].
+  apply andb_true_iff in Hc as [Hc Hl]. apply andb_true_iff in Hc as [Hc Hsn]. apply andb_true_iff in Hc as [_ Hnd].
+  apply andb_true_iff in Hcov as [Hcov Hcs]. apply andb_true_iff in Hcov as [Hcov A1].
+  apply andb_true_iff in Hcov as [Hcov A0]. apply andb_true_iff in Hcov as [C0 C1].
+  pose proof (nodupN_NoDup _ Hnd) as Hnd'.
+  pose proof (inv_init init Hnd') as Hi.
+  assert (Hb : blocks_nodup (init_state init)).
+  { intros j b Hin. unfold init_state in Hin. apply in_map_iff in Hin as [[o ss] [E Hin]].
+    simpl in E. inversion E as [[Ej Eb]]. simpl.
+    rewrite forallb_forall in Hsn. apply nodupS_NoDup. apply (Hsn (o, ss) Hin). }
+  pose proof (last_view_props init steps _ s0 s1 Hi (laminar_init init) Hb Hl C0 C1 A0 A1 Hcs) as H.
+  destruct (last_view (init_state init) s0 s1 steps) as [[st f0] f1].
+  destruct H as [Hi' [Hl' [Hb' [D0 [D1 [E0 E1]]]]]].
+  pose proof (orig_disjoint_b_spec init Hnd' Hdis) as Hod.
+  apply andb_true_iff. split; apply (nodup_complete sample_eqb sample_eqb_spec).
+  - apply (served_list_NoDup init st f0 Hi' Hl' Hb' Hod E0). apply (cover_found st true f0 (inv_keys _ _ Hi') D0).
+  - apply (served_list_NoDup init st f1 Hi' Hl' Hb' Hod E1). apply (cover_found st false f1 (inv_keys _ _ Hi') D1).
 Qed.
